@@ -76,6 +76,30 @@ theorem normalize_bare_self_counterexample (cmp : Tree → Tree → Ordering) :
       itemLeaves (use [.slf none]) ≠ [] ∧ itemLeaves (use []) = [] :=
   ⟨rfl, by decide, by decide⟩
 
+/-- `normalize` keeps a declaration well-formed (in particular every nested tree keeps a non-empty
+path: the hypothesis of `flatten_leaves`), and a declaration without attributes comes out without
+any empty list. -/
+theorem normalize_wf (cmp : Tree → Tree → Ordering) (it it' : Item)
+    (h : normalizeItem cmp it = .ok it') (hwf : wfPath true it.tree.path = true) :
+    wfPath true it'.tree.path = true ∧ nePath it'.tree.path = true ∧
+      (it.attrs = none → leafyPath it'.tree.path = true) := by
+  unfold normalizeItem at h
+  split at h
+  · simp at h
+  · rename_i p hp
+    simp only [Except.ok.injEq] at h; subst h
+    have hw := normPath_wf cmp _ _ _ _ _ true hp hwf
+    refine ⟨hw, wfPath_nePath true _ hw, ?_⟩
+    intro ha
+    exact normPath_leafy cmp _ _ _ _ _ true (by simp [ha]) hp hwf
+
+/-- `use a::{b::{}, c};` is normalised to `use a::c;` and `use a::{b::{}, c::{}};` to nothing
+(the element that imports nothing is removed and the tree normalised again). -/
+theorem normalize_removes_nested_empty (cmp : Tree → Tree → Ordering) :
+    normalizeItem cmp (use [i 'a', .list [.mk [i 'b', .list []], .mk [i 'c']]]) = .ok (use [i 'a', i 'c']) ∧
+    normalizeItem cmp (use [i 'a', .list [.mk [i 'b', .list []], .mk [i 'c', .list []]]]) = .ok (use []) :=
+  ⟨rfl, rfl⟩
+
 /-! ## `flatten`, `nest_trailing_self` -/
 
 /-- `flatten` keeps the imports, **as a list** (order and multiplicity), when every nested tree has
@@ -91,10 +115,12 @@ example : nePath useNested.tree.path = true := by decide
 theorem flatten_vis (g : Granularity) (it : Item) : ∀ p ∈ flattenItem g it, p.vis = it.vis :=
   flattenItem_vis g it
 
-/-- The hypothesis is needed: a nested tree with an empty path (what `normalize` leaves of the
-nested `b::{}` in `use a::{b::{}, c};`) is flattened to an import of the prefix itself:
-`use a::{<empty>, c}` becomes `use a; use a::c;` — an import nobody wrote
-(reproduced on the binary: `use a::{b::{}, c};` under `imports_granularity=Item` gives `use a;`). -/
+/-- The hypothesis is needed: a nested tree with an empty path is flattened to an import of the
+prefix itself: `use a::{<empty>, c}` becomes `use a; use a::c;` — an import nobody wrote.  Before the
+repair of `UseTree::normalize` in /repo this is what `normalize` left of the nested `b::{}` in
+`use a::{b::{}, c};` (reproduced on the binary then: `imports_granularity=Item` gave `use a;`);
+`normalize` now removes such elements (`normalize_removes_nested_empty`, `normalize_wf`), so no
+parsed declaration reaches `flatten` in this shape any more. -/
 theorem flatten_empty_nested_counterexample :
     let it := use [i 'a', .list [.mk [], .mk [i 'c']]]
     (⟨[], none, ⟨[.name (n 'a') none], none⟩⟩ : ItemLeaf) ∈ runLeaves (flattenItem .item it) ∧
@@ -304,6 +330,28 @@ theorem run_total (cmp : Tree → Tree → Ordering) (g : Granularity) (gt : Gro
   RF.Lemmas.Imports.run_total cmp g gt reorder items hwf
 
 example : ∀ it ∈ [useNested, useAB, useAasX], wfPath true it.tree.path = true ∧ it.tree.path ≠ [] := by
+  decide
+
+/-- The whole arm under `Preserve`, `Item` and `Crate` keeps the keyed leaf set of every run of
+declarations as the parser builds them (`normalizable`: well-formed paths, no bare `use self;`):
+no hypothesis on aliases, duplicates, visibilities, attributes or comments.  (For `Module` and `One`
+see `run_leaves_partial`: the alias conditions are needed, the counter-examples are above.) -/
+theorem run_leaves_preserve_item_crate (cmp : Tree → Tree → Ordering) (g : Granularity)
+    (hg : g = .preserve ∨ g = .item ∨ g = .crate) (gt : GroupTactic) (reorder : Bool)
+    (items : List Item) (groups : List (List Item))
+    (h : rewriteUseRun cmp g gt reorder items = .ok groups) (hwf : normalizable items = true) :
+    SetEq (runLeaves groups.flatten) (runLeaves items) := by
+  cases hn : mapE (normalizeItem cmp) items with
+  | error e => simp [rewriteUseRun, hn] at h
+  | ok normalized =>
+    obtain ⟨h1, h2, h3⟩ := normalized_safe cmp items normalized hn hwf
+    refine run_leaves cmp g gt reorder items normalized groups hn h hwf ?_
+    rcases hg with rfl | rfl | rfl
+    · exact h1
+    · exact h2
+    · exact h3
+
+example : normalizable [useNested, useA, useAasX, use [i 'a', .list [.mk [i 'b', .list []], .mk [i 'c']]]] = true := by
   decide
 
 end RF.Props.C10
